@@ -8,7 +8,7 @@
    suffices for that member (C10_one_round); how long a dead instance keeps a fresh heart-beat is
    heartbeatInterval + heartbeatToleranceDuration by the clock (checked on the real code). *)
 From Verif Require Import Base.Prelude Model.Chunk Proofs.ChunkProofs Model.Membership Proofs.MembershipProofs.
-From Verif Require Model.StatefulSet Proofs.StatefulSetProofs.
+From Verif Require Model.StatefulSet Proofs.StatefulSetProofs Model.Retry Proofs.RetryProofs.
 
 (* One round is enough: from every reachable state, a member that sees itself alive holds, after its round, exactly
    the view of that round (the registered instances with a document and a fresh heart-beat, in join order) and the
@@ -133,6 +133,13 @@ Proof.
   - exact (StatefulSetProofs.sts_member_injective _ _ _ _ _ _ _ H1 H2).
 Qed.
 Print Assumptions C10_statefulset.
+
+(* Leader-assigned: "an instance that stops answering is dropped" rests on the RPC client's retry helper reporting a failure
+   when every attempt failed -- and only then *)
+Theorem C10_retry_helper_reports_failure : forall answers attempts, (0 < attempts)%nat ->
+  (snd (Retry.helper_retry answers attempts 0) = false <-> forall j, (j < attempts)%nat -> answers j = false).
+Proof. exact RetryProofs.helper_retry_fails_iff. Qed.
+Print Assumptions C10_retry_helper_reports_failure.
 
 (* non-vacuity: three instances join, the second dies silently, the third's document expires; rounds in any order *)
 Example C10_example_outputs :
